@@ -863,6 +863,15 @@ def new_stats():
                            "method_set_comparisons")}
 
 
+def corpus_api_cases(ctx):
+    out = []
+    for name, c in ctx.corpus():
+        if c.get("kind") == "api":
+            out.append({"kind": "api", "dim": c["dim"], "pts": [tuple(p) for p in c["pts"]], "k": c["k"],
+                        "method": c.get("method", 0), "api_method": c.get("api_method", 0)})
+    return out
+
+
 def corpus_cases(ctx):
     graphs, bases, n = [], [], 0
     for name, c in ctx.corpus():
@@ -901,7 +910,7 @@ def run(ctx):
         if api is not None:
             cg, cb, ncorp = corpus_cases(ctx)
             hist["corpus"] = ncorp
-            n += api_eval(ctx, api, mexe, api_jobs_from(cb), stats)
+            n += api_eval(ctx, api, mexe, corpus_api_cases(ctx) + api_jobs_from(cb), stats)
             n += api_search(ctx, api, mexe, stats, rng, 150 if quick else 1500)
             for idx, (case, why) in enumerate(list(ctx._violations[:2])):
                 if case.get("kind") == "api" and len(case["pts"]) > 6:
@@ -980,7 +989,8 @@ def run(ctx):
 
     if api is not None:
         napi = 60 if quick else 400
-        n += api_eval(ctx, api, mexe, api_jobs_from([b for b in cb if b["tie_free"]] + bases[:napi]), stats)
+        n += api_eval(ctx, api, mexe, corpus_api_cases(ctx)
+                      + api_jobs_from([b for b in cb if b["tie_free"]] + bases[:napi]), stats)
         hist["api"] = stats["api_runs"]
         for idx, (case, why) in enumerate(list(ctx._violations[:3])):
             if case.get("kind") == "api" and len(case["pts"]) > 6:
